@@ -37,7 +37,19 @@ def handleLine (line : String) : String :=
   match Json.parse line with
   | .error e => (Json.mkObj [("case", (0 : Nat)), ("agree", false), ("specOk", false), ("why", s!"driver: bad json: {e}")]).compress
   | .ok j =>
-    let r := dispatch (Drv.jstr j "p") (Drv.jget j "in") (Drv.jget j "obs")
+    let p := Drv.jstr j "p"
+    let obs := Drv.jget j "obs"
+    let r := dispatch p (Drv.jget j "in") obs
+    -- what the application was handed (a payload, a recipient list, the id list of the block check) is its own from then
+    -- on: a queueing transport or an audit log reads it later
+    let kept : Option String := (Drv.stepsOf obs).findSome? fun (_, o) => match Drv.jget o "keptTrouble" with
+      | .arr xs => (xs[0]?).bind fun x => x.getStr?.toOption
+      | _ => none
+    let r := if ["C02", "C03", "C05", "C06", "C17"].contains p && r.specOk then
+        (match kept with
+         | some m => { r with specOk := false, why := "what the application was handed changed after the call had returned: " ++ m }
+         | none => r)
+      else r
     (r.toJson (Drv.jnat j "case")).compress
 
 partial def loop (h : IO.FS.Stream) (out : IO.FS.Stream) : IO Unit := do
